@@ -21,7 +21,8 @@ LEVEL = 'model_checking'
 TECHNIQUE = 'explicit-state model checking (TLC) with fault transitions + exhaustive replay of all model traces on BaseModel.solve_t; exhaustive natural-fault placement lattice on parser-built models'
 RULE = ('TLC over SolveT.tla with Outcomes={conv,moved,nanw,nans,exc}; every terminal state replayed on solve_t with single '
         '(quick) / pairwise (thorough) concretisation deviations; natural-fault parser models x (K, cap, min/max_iter, errors incl. invalid, '
-        'failures, catch_first_error, period) vs reference loop. non-trivial = a fault or a rejection occurs in the execution')
+        'failures, catch_first_error, period) vs reference loop. non-trivial = a fault or a rejection occurs in the execution'
+        " Models built with dtype=np.longdouble and finite check values beyond float64 (3 magnitudes x 4 policies x options); an errors value naming no policy never ends in a policy's status.")
 ASSUMPTIONS = c02.ASSUMPTIONS + [
     'excluded sub-alphabet: conv immediately after a replaced non-finite pass (statement ambiguous, DESIGN C06)',
     'an `errors` value that names none of the four policies: the statement fixes the outcome by `errors`, so no policy outcome may be recorded; the check demands the ValueError the code documents, at whichever pass first needs a policy (an up-front ValueError would satisfy it too)',
